@@ -3,7 +3,7 @@
     sumbool, sumor; no Extract Constant).  N / Z / nat stay the extracted inductive datatypes. *)
 From Coq Require Extraction.
 From Coq Require Import ExtrOcamlBasic.
-From HC Require Import Base.HBytes Model.Tlv8 Model.Storage Model.Framing Model.ConnRead Model.ConnWrite Model.Charac Model.Hap Gen.CatalogGen Model.Catalog Model.Ids Model.Pin Model.Config Model.TlvStruct Gen.Extracted.
+From HC Require Import Base.HBytes Model.Tlv8 Model.Storage Model.Framing Model.ConnRead Model.ConnWrite Model.Respond Model.Charac Model.Hap Gen.CatalogGen Model.Catalog Model.Ids Model.Pin Model.Config Model.TlvStruct Gen.Extracted.
 Extraction Language OCaml.
 Set Extraction KeepSingleton.
 Separate Extraction
@@ -14,7 +14,7 @@ Separate Extraction
   Framing.new_server_session Framing.new_client_session Framing.send_all Framing.recv_all
   Framing.decrypt_stream Framing.decrypt_segments Framing.cc_open Framing.cc_seal Framing.spec_wire_from Framing.packets_pinned
   ConnRead.run_reads ConnRead.init_conn
-  ConnWrite.wrun HBytes.chunks
+  ConnWrite.wrun Respond.rrun HBytes.chunks
   Charac.cstep Charac.cstep2 Charac.well_typed Z.opp Z.div Z.modulo
   Hap.step Hap.fixed Hap.store_get Hap.empty_world Hap.get_conn
   CatalogGen.char_ctors CatalogGen.svc_ctors Catalog.svc_type Catalog.svc_char_types
